@@ -218,6 +218,10 @@ func checkC16(ctx *Ctx) *Result {
 					if v != "*" && v != "true" && v != "*,authorization" {
 						good, detail = false, fmt.Sprintf("%s discloses the constant %q", w.Key, v)
 					}
+					// the documented case: `*` listed, Authorization listed, no credentials
+					if v == "*,authorization" && !(rp.Is(aAsterisk) && rp.Is(aAllowAuth) && rp.Not(aCred)) {
+						good, detail = false, "`*,authorization` is sent outside the documented case (wildcard and Authorization listed, no credentialed access): it names a configured token the request did not supply"
+					}
 				}
 			case w.Tag == "hdr1(Origin)" || w.Tag == "hdr1("+hACRM+")" || w.Tag == "hdrs("+hACRH+")":
 			case w.Tag == "cfg.acma" && w.Key == hACMA:
@@ -228,7 +232,14 @@ func checkC16(ctx *Ctx) *Result {
 		r.check(good, "R16.2", desc, "", detail, 1)
 	}
 	r.check(len(failStatus) == 1, "R16.1", "one failing status", "", fmt.Sprintf("failing debug-off preflights use %d different statuses: %v", len(failStatus), failStatus), len(failStatus))
-	// which requests are preflights at all rests on what "found" means
+	// which requests are preflights at all: the dispatch predicate (shared with C11)
+	r.rule("R11.2", "handler-free paths ⇔ OPTIONS ∧ found(Origin) ∧ found(ACRM) on a configured middleware (what this property calls a preflight is what the middleware answers itself)", 100)
+	for _, o := range checkC11(ctx).Obls {
+		if o.Rule == "R11.2" {
+			r.Obls = append(r.Obls, o)
+		}
+	}
+	// ... and on what "found" means
 	checkFirst(ctx, r)
 	r.RuleDocs["R3.1"] = "headers.First: found ⇔ key present with at least one value; returns v[0], v[:1] of that lookup (a preflight with an empty Access-Control-Request-Method value is still a preflight)"
 	// R16.3: the private-network answer is given only to a request that asked
